@@ -5,7 +5,7 @@ from vlib.known import allowed, pick as pick_dev
 from vlib.sim import conc
 from vlib.roles import wire_devs
 
-from harness.hist import run_history, describe, NA, K, PREFIX, ROLE
+from harness.hist import run_history, describe, NA, K, PREFIX, ROLE, LEASE
 from harness.c07_termination import _pad
 
 ALLOWED = allowed('C08')
@@ -33,7 +33,10 @@ def c_history(e1: int, e2: int, e3: int, e4: int, a1: bool, a2: bool, a3: bool, 
     devs = []
     if n <= 0 and o.role in ('rs_req', 'ch_req') and o.init_error is None:
         devs.append('non-positive-initial-request-n-accepted')
-    devs += wire_devs(o.t.trace, o.role.endswith('_req'))
+    for d in wire_devs(o.t.ordered_trace(), o.role.endswith('_req')):
+        if LEASE and d.startswith('C08:new-stream-does-not-begin-with-a-request-frame'):
+            d = 'C08:lease:frame-overtakes-lease-blocked-request'
+        devs.append(d)
     if o.loop.exc:
         devs.append('loop-exception-handler-called')
     if o.loop.livelock:
